@@ -227,7 +227,7 @@ func validateAttribute(ctx *AttributeContext, att *expr.AttributeExpr, put expr.
 		return fmt.Sprintf("%s%s\n}", cond, code)
 	}
 	if expr.IsAlias(ut) {
-		return recurseValidationCode(ut.Attribute(), put, ctx, req, true, view, target, context, nil).String()
+		return recurseValidationCode(ut.Attribute(), put, ctx, req, true, view, target, context, make(map[string]*bytes.Buffer)).String()
 	}
 	if !hasValidations(ctx, ut) {
 		return ""
